@@ -206,4 +206,17 @@ func TestC02(t *testing.T) {
 		return
 	}
 	ev.Check(t, "c02_uniform", ev.N(320, 3200), c02Gen, c02Run)
+	// long passwords / full-size alphabets: support check (every character at every position)
+	ev.Check(t, "c02_long_support", ev.N(32, 320), func(t *rapid.T) supChar {
+		sp := gen.CharSpec(t, gen.CharOpts{MaxLen: 120, MinLen: 20, MaxReq: 2, NoHiBits: true})
+		return supChar{Spec: sp, Key: rapid.Uint64().Draw(t, "key")}
+	}, func(c supChar) error {
+		err := charSupport(c)
+		if err == nil {
+			ev.Class("long_support_checked")
+			ev.NonTrivial(fmt.Sprintf("long|%+v", c.Spec))
+			ev.Sample("c02_long_support", 2, c)
+		}
+		return err
+	})
 }
